@@ -3,12 +3,16 @@
 //!   harness run                         read case lines on stdin, run the real anthem code,
 //!                                       print one result line per case
 //!   harness ops                         list operations
+//!   harness features                    read `<op>\t<input>\t<output>` lines, print the features of each case
+//!                                       (src/features.rs) space-separated, one line per case
 #[allow(dead_code)]
 mod conv;
 #[allow(dead_code, unused_imports)]
 mod ext {
     include!(concat!(env!("OUT_DIR"), "/ext_gen.rs"));
 }
+#[allow(dead_code)]
+mod features;
 #[allow(dead_code)]
 mod generate;
 mod ops;
@@ -81,10 +85,32 @@ fn main() {
             for line in stdin.lock().lines() {
                 let line = line.expect("read");
                 writeln!(out, "{}", run_case(&table, &line)).unwrap();
+                // one answer per case, delivered at once: the watchdog of bin/vlib.py blames the first case
+                // without an answer when the process stops answering
+                out.flush().unwrap();
+            }
+        }
+        Some("features") => {
+            std::panic::set_hook(Box::new(|_| {}));
+            let stdin = std::io::stdin();
+            let out = std::io::stdout();
+            let mut out = std::io::BufWriter::new(out.lock());
+            for line in stdin.lock().lines() {
+                let line = line.expect("read");
+                let mut it = line.splitn(3, '\t');
+                let (op, i, o) = (it.next().unwrap_or(""), it.next().unwrap_or(""), it.next().unwrap_or(""));
+                let fs = match (sexp::parse(i), sexp::parse(o)) {
+                    (Ok(i), Ok(o)) => {
+                        let op = op.to_string();
+                        std::panic::catch_unwind(move || features::features(&op, &i, &o)).unwrap_or_else(|_| vec!["feature-panic"])
+                    }
+                    _ => vec!["feature-unparsed"],
+                };
+                writeln!(out, "{}", fs.join(" ")).unwrap();
             }
         }
         _ => {
-            eprintln!("usage: harness gen <op> <seed> <count> | run | ops");
+            eprintln!("usage: harness gen <op> <seed> <count> | run | ops | features");
             std::process::exit(2);
         }
     }
